@@ -1,5 +1,6 @@
 """C09 - a precompiled profile is equivalent to its source and is reusable."""
 import json
+import os
 import time
 
 import corpus
@@ -90,11 +91,25 @@ def run_(tier):
         c.setdefault("steps", [x.get("dkey", "") for x in c.get("script", [])])
         c.setdefault("pkey", "script")
     obs = vlib.run_harness("history", cases, "c09")
+    fresh_refs = fresh_process_references(profs, kinds)
     skipped = [o for o in obs if o.get("skipped") and "poisoned" not in o["skipped"]]
     if skipped:
         raise vlib.Infra("history cases skipped: %s" % skipped[0])
+    # every history starts with what a validation of the same texts returned in a process of its own (no history at
+    # all, not even the harness warm-up): the trace spec binds the report of each key to that value
+    for o in obs:
+        c = next((x for x in cases if x["id"] == o["id"]), None)
+        if c is None or c.get("script") or c["pkey"] not in profs:
+            continue
+        keys = sorted(set(x["dkey"] for x in o["calls"] if x.get("dkey")))
+        pre = []
+        for k in keys:
+            ref = fresh_refs.get((c["pkey"], k))
+            if ref:
+                pre.append(dict(ref, pkey=c["pkey"], dkey=k, dclass=DCLASS.get(k.split("@")[0], "unknown")))
+        o["calls"] = pre + o["calls"]
     lines, byid = proto.to_trace(obs)
-    rejected, tr = proto.validate_trace("c09", lines, timeout=3000)
+    rejected, tr = proto.validate_trace("c09", lines, timeout=1500)
     bycase = {c["id"]: c for c in cases}
     for rid in sorted(rejected):
         o = byid[rid]
@@ -104,7 +119,7 @@ def run_(tier):
             seq.append("%s(%s)=%s:%s" % (x["entry"], x.get("dkey", ""), x["kind"], x.get("sha", "")[:6]))
         V.disagree("history %s over %s" % (c["pkey"], ",".join(c["steps"][:8])),
                    {"case": {k: c[k] for k in ("profile", "pkey", "fresh", "steps", "handles")}, "observed": seq})
-    selftest(lines)
+    selftest(lines, set(rejected))
     rc = V.finish()
     nsteps = sum(len(c["steps"]) for c in cases)
     vlib.write_evidence("C09", tier, {
@@ -190,7 +205,41 @@ def script_cases(rnd, n):
     return out
 
 
-def selftest(lines):
+def fresh_process_references(profs, kinds):
+    """(profile key, doc@cfg) -> observed call, each computed by a harness process that does nothing else"""
+    from concurrent.futures import ThreadPoolExecutor
+    import subprocess
+    exe = vlib.build_harness()
+    d = os.path.join(vlib.BUILD, "run", "c09_fresh")
+    os.makedirs(d, exist_ok=True)
+    jobs = []
+    for pk, ptext in sorted(profs.items()):
+        for k in kinds:
+            for cn in ("", "alt", "altLex", "altRep", "noDate"):
+                jobs.append((pk, ptext, k, cn))
+
+    def one(j):
+        pk, ptext, k, cn = jobs[j]
+        inp, outp = os.path.join(d, "in%d.ndjson" % j), os.path.join(d, "out%d.ndjson" % j)
+        vlib.write_ndjson(inp, [{"id": "fresh", "profile": ptext, "pkey": pk, "docs": {k: DOCS[k]}, "dclasses": DCLASS,
+                                 "fresh": [k], "steps": [], "handles": [], "varyCfg": True, "onlyCfg": cn}])
+        p = subprocess.run(["timeout", "300", exe, "history", inp, outp], capture_output=True, text=True,
+                           env=dict(os.environ, ACVH_NO_WARMUP="1"))
+        if p.returncode != 0:
+            raise vlib.Infra("fresh reference process failed: %s" % p.stderr[-500:])
+        return pk, vlib.read_ndjson(outp)[0]
+    refs = {}
+    with ThreadPoolExecutor(max_workers=vlib.NCPU) as ex:
+        for pk, o in ex.map(one, range(len(jobs))):
+            for call in o["calls"]:
+                if call["entry"] == "validate" and call.get("dkey"):
+                    refs[(pk, call["dkey"])] = {"entry": "validate", "events": [], "kind": call["kind"], "closed": False,
+                                               "hasChan": False, "sha": call.get("sha", ""), "conforms": call.get("conforms"),
+                                               "timesOK": True}
+    return refs
+
+
+def selftest(lines, rejected=frozenset()):
     """Corrupt the hash of one report returned through the handle: the case must be rejected."""
     import copy
     start = 0
@@ -198,11 +247,16 @@ def selftest(lines):
     for i, ln in enumerate(lines):
         if ln["e"] == "end":
             cand = lines[start:i + 1]
+            if ln["id"] in rejected:
+                start = i + 1
+                continue
             if sum(1 for x in cand if x["e"] == "ret" and x["kind"] == "report" and x["key"]) >= 3:
                 seg = copy.deepcopy(cand)
                 break
             start = i + 1
     if seg is None:
+        if rejected:
+            return      # every candidate history is itself rejected: the verdict stands without the self-test
         raise vlib.Infra("selftest: no history with three reports")
     bad = copy.deepcopy(seg)
     rets = [x for x in bad if x["e"] == "ret" and x["kind"] == "report" and x["key"]]
